@@ -506,6 +506,19 @@ async fn create_task_future(
     task_dir: Option<TempDir>,
     stream_path: Option<PathBuf>,
 ) -> tako::Result<TaskResult> {
+    // The stream path is needed iff an output of the task is streamed
+    let stream_path = if matches!(program.stdout, StdioDef::Pipe)
+        || matches!(program.stderr, StdioDef::Pipe)
+    {
+        Some(stream_path.ok_or_else(|| {
+            tako::Error::GenericError(
+                "Output of the task is streamed, but the job has no stream path".to_string(),
+            )
+        })?)
+    } else {
+        None
+    };
+
     let mut command = command_from_definitions(&program)?;
 
     let status_to_result = |status: ExitStatus| {
@@ -550,14 +563,14 @@ async fn create_task_future(
         None => return Ok(TaskResult::Finished),
     };
 
-    if matches!(program.stdout, StdioDef::Pipe) || matches!(program.stderr, StdioDef::Pipe) {
+    if let Some(stream_path) = stream_path {
         let streamer_error =
             |e: tako::Error| tako::Error::GenericError(format!("Streaming: {:?}", e.to_string()));
         let stream = streamer_ref
             .get_mut()
             .get_stream(
                 &streamer_ref,
-                stream_path.as_ref().unwrap(),
+                &stream_path,
                 task_id,
                 instance_id,
             )
